@@ -3,6 +3,7 @@ package props
 import (
 	"fmt"
 	"go/token"
+	"regexp"
 	"sort"
 	"strings"
 
@@ -41,17 +42,50 @@ func c13gFileSlicePagination(c *eng.Ctx) {
 		return
 	}
 	c.Clause("R8", "C13.3")
-	ss := eng.Calls(f, `^sort\.SearchStrings$`)
 	sorts := eng.Calls(f, `^sort\.Strings$`)
-	if !c.Floor(f, "binary search for the page start", len(ss), 1) || !c.Floor(f, "sort of the directory names", len(sorts), 1) {
+	if !c.Floor(f, "sort of the directory names", len(sorts), 1) {
 		return
 	}
-	for _, s := range ss {
-		c.Prov(f, "search key of the page start", s, s.Common().Args[1], `^param:after$`)
+	sorted := sorts[0].Common().Args[0]
+	// the function that slices the page out of the sorted names: ListPageInternal itself, or a
+	// helper of the same package it hands the sorted names, 'after' and 'limit' to
+	host, afterN, limitN, sortedIn := f, "after", "limit", sorted
+	var via ssa.CallInstruction
+	if len(eng.Calls(f, `^sort\.SearchStrings$`)) == 0 {
+		for _, cl := range eng.Calls(f, `.`) {
+			g := cl.Common().StaticCallee()
+			if g == nil || g.Pkg != f.Pkg || len(g.Blocks) == 0 || len(eng.Calls(g, `^sort\.SearchStrings$`)) == 0 || len(g.Params) != len(cl.Common().Args) {
+				continue
+			}
+			var a, l string
+			var sv ssa.Value
+			for i, arg := range cl.Common().Args {
+				if p, ok := arg.(*ssa.Parameter); ok && eng.VarName(p) == "after" {
+					a = eng.VarName(g.Params[i])
+				}
+				if p, ok := arg.(*ssa.Parameter); ok && eng.VarName(p) == "limit" {
+					l = eng.VarName(g.Params[i])
+				}
+				if arg == sorted {
+					sv = g.Params[i]
+				}
+			}
+			if a != "" && l != "" && sv != nil {
+				host, afterN, limitN, sortedIn, via = g, a, l, sv, cl
+			}
+		}
 	}
-	eq := eng.CondEdges(f, `\[.*sort\.SearchStrings\(\).*\] == after$`, true)
+	ss := eng.Calls(host, `^sort\.SearchStrings$`)
+	if !c.Floor(f, "binary search for the page start", len(ss), 1) {
+		return
+	}
+	qa, ql := regexp.QuoteMeta(afterN), regexp.QuoteMeta(limitN)
+	for _, s := range ss {
+		c.Prov(host, "search key of the page start", s, s.Common().Args[1], `^param:`+qa+`$`)
+	}
+	eq := eng.CondEdges(host, `\[.*sort\.SearchStrings\(\).*\] == `+qa+`$`, true)
 	adv := false
-	for _, in := range eng.Instrs(f, func(in ssa.Instruction) bool { b, ok := in.(*ssa.BinOp); return ok && b.Op == token.ADD }) {
+	for _, in := range eng.Instrs(host, func(in ssa.Instruction) bool { b, ok := in.(*ssa.BinOp); return ok && b.Op == token.ADD }) {
 		b := in.(*ssa.BinOp)
 		if strings.Contains(eng.Expr(b.X), "sort.SearchStrings()") && eng.Expr(b.Y) == "1" {
 			adv = true
@@ -59,39 +93,43 @@ func c13gFileSlicePagination(c *eng.Ctx) {
 	}
 	switch {
 	case len(eq) == 0:
-		c.Violation(f, "page starts after the element equal to 'after'", ss[0].Pos(), "no test 'names[idx] == after' follows the search: the page would include 'after' itself", nil)
+		c.Violation(host, "page starts after the element equal to 'after'", ss[0].Pos(), "no test 'names[idx] == after' follows the search: the page would include 'after' itself", nil)
 	case !adv:
-		c.Violation(f, "page starts after the element equal to 'after'", ss[0].Pos(), "the index is not advanced past the element equal to 'after'", nil)
+		c.Violation(host, "page starts after the element equal to 'after'", ss[0].Pos(), "the index is not advanced past the element equal to 'after'", nil)
 	default:
-		c.OK(f, "page starts after the element equal to 'after'", ss[0].Pos(), "names[idx] == after ⇒ idx+1")
+		c.OK(host, "page starts after the element equal to 'after'", ss[0].Pos(), "names[idx] == after ⇒ idx+1")
 	}
 	c.Clause("R2", "C13.3")
 	var cuts []ssa.Instruction
-	for _, in := range eng.Instrs(f, func(in ssa.Instruction) bool {
+	for _, in := range eng.Instrs(host, func(in ssa.Instruction) bool {
 		sl, ok := in.(*ssa.Slice)
 		return ok && sl.High != nil
 	}) {
 		for _, o := range eng.Origins(in.(*ssa.Slice).High) {
-			if o.Kind == "param" && o.Desc == "limit" {
+			if o.Kind == "param" && o.Desc == limitN {
 				cuts = append(cuts, in)
 				break
 			}
 		}
 	}
-	if c.Floor(f, "truncation to limit", len(cuts), 1) {
-		c.Cut(f, "truncate the page to limit", cuts, eng.G(f, `^0 < limit$`, true), nil)
+	if c.Floor(host, "truncation to limit", len(cuts), 1) {
+		c.Cut(host, "truncate the page to limit", cuts, eng.G(host, `^0 < `+ql+`$`, true), nil)
 	}
 	// the names are sorted before they are searched, sliced or returned
 	c.Clause("R3", "C13.3")
 	site := "order{sort.Strings(names) < binary search, slicing, return of a non-empty listing}"
-	sorted := sorts[0].Common().Args[0]
 	same := true
 	for _, s := range ss {
-		if s.Common().Args[0] != sorted {
+		if s.Common().Args[0] != sortedIn {
 			same = false
 		}
 	}
-	targets := append(eng.AsInstrs(ss), eng.NonNilResultReturns(f, 0)...)
+	targets := eng.NonNilResultReturns(f, 0)
+	if via != nil {
+		targets = append(targets, via)
+	} else {
+		targets = append(targets, eng.AsInstrs(ss)...)
+	}
 	for _, in := range eng.Instrs(f, func(in ssa.Instruction) bool { _, ok := in.(*ssa.Slice); return ok }) {
 		if in.(*ssa.Slice).X == sorted {
 			targets = append(targets, in)
@@ -110,12 +148,12 @@ func c13gFileSlicePagination(c *eng.Ctx) {
 
 // ---- in-memory walk: the page is full when the entries RETURNED reach the limit
 func c13gInmemPageFull(c *eng.Ctx) {
+	c.Clause("R8", "C13.3")
 	parent := c.Fn("inmem.(*InmemBackend).listPaginatedInternal")
-	walk := c.Fn("inmem.(*InmemBackend).listPaginatedInternal$1")
+	walk := c13gInmemWalk(c)
 	if parent == nil || walk == nil {
 		return
 	}
-	c.Clause("R8", "C13.3")
 	// the accumulator the parent returns on success
 	returned := map[ssa.Value]bool{}
 	for _, r := range eng.SuccessReturns(parent, 1) {
@@ -218,8 +256,14 @@ func c13gCutoffOperand(c *eng.Ctx) {
 		want := eng.ExprDeep(other)
 		var bad []string
 		nr := 0
+		// the returns this decision leads to, on paths consistent with the tests that
+		// necessarily precede it (a condition tested before and again after the comparison)
+		known := c13gFactsBefore(f, iff)
 		for si := range b.Succs {
-			for _, r := range eng.ReturnsFrom(f, []eng.Edge{{From: b, Succ: si}}, nil, nil) {
+			for _, r := range eng.Returns(f) {
+				if eng.Reach(eng.Query{Fn: f, StartEdges: []eng.Edge{{From: b, Succ: si}}, Assume: known, Target: func(in ssa.Instruction) bool { return in == ssa.Instruction(r) }}) == nil {
+					continue
+				}
 				nr++
 				if got := eng.ExprDeep(r.Results[0]); got != want {
 					bad = append(bad, got)
@@ -233,11 +277,53 @@ func c13gCutoffOperand(c *eng.Ctx) {
 		}
 	}
 	c.Floor(f, "ordering comparisons with 'after'", n, 2)
-	for _, fn := range []string{"raft.listPageInner", "inmem.(*InmemBackend).listPaginatedInternal$1"} {
-		if g := c.Fn(fn); g != nil {
-			c13gCutoffAppend(c, g, 2)
+	if g := c.Fn("raft.listPageInner"); g != nil {
+		c13gCutoffAppend(c, g, 2)
+	}
+	if g := c13gInmemWalk(c); g != nil {
+		c13gCutoffAppend(c, g, 2)
+	}
+}
+
+// c13gFactsBefore: the branch conditions whose value is the same on every
+// path from the entry of a loop-free function to the test at: as an Assume map
+// for eng.Reach (exact normalised condition -> value).
+func c13gFactsBefore(f *ssa.Function, at *ssa.If) map[string]bool {
+	facts := map[string]bool{}
+	isAt := func(in ssa.Instruction) bool { return in == ssa.Instruction(at) }
+	if eng.Reach(eng.Query{Fn: f, Target: isAt}) == nil {
+		return facts
+	}
+	// loop-free only: a fact established in an earlier iteration may be stale
+	color := map[*ssa.BasicBlock]int{}
+	var cyclic func(b *ssa.BasicBlock) bool
+	cyclic = func(b *ssa.BasicBlock) bool {
+		color[b] = 1
+		for _, s := range b.Succs {
+			if color[s] == 1 || (color[s] == 0 && cyclic(s)) {
+				return true
+			}
+		}
+		color[b] = 2
+		return false
+	}
+	if cyclic(f.Blocks[0]) {
+		return facts
+	}
+	for _, b := range f.Blocks {
+		d := eng.IfOf(b)
+		if d == nil || d == at {
+			continue
+		}
+		nc := eng.Normalize(d.Cond)
+		for si := 0; si < 2; si++ {
+			if eng.Reach(eng.Query{Fn: f, Blocked: []eng.Edge{{From: b, Succ: si}}, Target: isAt}) == nil {
+				// without this edge the test is unreachable: every path to it takes this edge
+				facts["^"+regexp.QuoteMeta(nc.Base)+"$"] = (si == 0) == nc.Pol
+			}
 		}
 	}
+	return facts
 }
 
 // c13gIsAfter: v is the listing's 'after' (parameter, or a captured variable read in a closure).
@@ -497,14 +583,14 @@ func c13gHandleListPage(c *eng.Ctx) {
 	if f == nil {
 		return
 	}
-	lps := eng.Calls(f, `^<logical\.Storage>\.ListPage$`)
+	lps, lpRecv := c13gMethodCalls(f, "ListPage")
 	c.Clause("R5", "C13.4")
 	if !c.Floor(f, "ListPage in HandleListPage", len(lps), 1) {
 		return
 	}
 	for _, l := range lps {
 		a := l.Common().Args
-		c.Prov(f, "storage listed", l, l.Common().Value, `^param:storage$`)
+		c.Prov(f, "storage listed", l, lpRecv[l], `^param:storage$`)
 		c.Prov(f, "prefix listed", l, a[1], `^param:prefix$`)
 		c.Prov(f, "page size", l, a[3], `^param:limit$`)
 		okA := true
@@ -515,7 +601,7 @@ func c13gHandleListPage(c *eng.Ctx) {
 			if s == `const:""` {
 				continue
 			}
-			if strings.Contains(o.Desc, "ListPage()#0[") && strings.Contains(o.Desc, "len(") && strings.HasSuffix(o.Desc, "- 1]") {
+			if idx, isElem := c13gListedElem(o.Val, lps); isElem && c13gIsLastIndex(idx, lps) {
 				continue
 			}
 			okA = false
@@ -858,4 +944,104 @@ func c13gFileKeyEncoding(c *eng.Ctx) {
 	} else {
 		c.Violation(f, site, f.Pos(), "the file that stores a key is named through "+strings.Join(used, ", ")+" of the key and validatePath only refuses \"..\": the distinct keys \"foo\" and \"foo/\" (\"a/b\" and \"a//b\", \"a/./b\") share one file — a put of one overwrites the other, a delete of one removes the other, and listings differ from every other backend", nil)
 	}
+}
+
+// c13gMethodCalls: the calls of a method named name in f — interface invokes
+// and calls through a method value bound earlier (m := recv.Name; m(...)) —
+// with the receiver each call addresses.
+func c13gMethodCalls(f *ssa.Function, name string) ([]ssa.CallInstruction, map[ssa.CallInstruction]ssa.Value) {
+	recv := map[ssa.CallInstruction]ssa.Value{}
+	var out []ssa.CallInstruction
+	for _, cl := range eng.Calls(f, `.`) {
+		cc := cl.Common()
+		switch {
+		case cc.IsInvoke() && cc.Method.Name() == name:
+			recv[cl] = cc.Value
+			out = append(out, cl)
+		case !cc.IsInvoke():
+			if mc, ok := cc.Value.(*ssa.MakeClosure); ok && len(mc.Bindings) == 1 {
+				if fn, ok := mc.Fn.(*ssa.Function); ok && fn.Synthetic != "" && strings.TrimSuffix(fn.Name(), "$bound") == name && strings.HasSuffix(fn.Name(), "$bound") {
+					recv[cl] = mc.Bindings[0]
+					out = append(out, cl)
+				}
+			}
+		}
+	}
+	return out, recv
+}
+
+// c13gListedElem: v is an element result#0[idx] of one of the listing calls.
+func c13gListedElem(v ssa.Value, lps []ssa.CallInstruction) (ssa.Value, bool) {
+	u, ok := v.(*ssa.UnOp)
+	if !ok || u.Op != token.MUL {
+		return nil, false
+	}
+	ia, ok := u.X.(*ssa.IndexAddr)
+	if !ok {
+		return nil, false
+	}
+	ex, ok := ia.X.(*ssa.Extract)
+	if !ok || ex.Index != 0 {
+		return nil, false
+	}
+	for _, l := range lps {
+		if lv, isV := l.(ssa.Value); isV && ex.Tuple == lv {
+			return ia.Index, true
+		}
+	}
+	return nil, false
+}
+
+// c13gIsLastIndex: idx is len(result#0 of a listing call) - 1.
+func c13gIsLastIndex(idx ssa.Value, lps []ssa.CallInstruction) bool {
+	bo, ok := idx.(*ssa.BinOp)
+	if !ok || bo.Op != token.SUB || eng.Expr(bo.Y) != "1" {
+		return false
+	}
+	cl, ok := bo.X.(*ssa.Call)
+	if !ok || eng.CalleeName(&cl.Call) != "len" || len(cl.Call.Args) != 1 {
+		return false
+	}
+	ex, ok := cl.Call.Args[0].(*ssa.Extract)
+	if !ok || ex.Index != 0 {
+		return false
+	}
+	for _, l := range lps {
+		if lv, isV := l.(ssa.Value); isV && ex.Tuple == lv {
+			return true
+		}
+	}
+	return false
+}
+
+// c13gInmemWalk: the per-key callback of the in-memory listing: the frozen
+// anchor, or (when the closure is no longer handed to WalkPrefix directly, e.g.
+// through a forwarding closure) the one closure of listPaginatedInternal that
+// captures 'after' and appends to a result.
+func c13gInmemWalk(c *eng.Ctx) *ssa.Function {
+	const name = "inmem.(*InmemBackend).listPaginatedInternal"
+	if w := c.P.Func(name + "$1"); w != nil {
+		return w
+	}
+	parent := c.P.Func(name)
+	if parent == nil {
+		return nil // reported by the caller's c.Fn
+	}
+	var cands []*ssa.Function
+	for _, cl := range eng.Closures(parent) {
+		capt := false
+		for _, fv := range cl.FreeVars {
+			if eng.VarName(fv) == "after" {
+				capt = true
+			}
+		}
+		if capt && len(eng.Calls(cl, `^append$`)) > 0 {
+			cands = append(cands, cl)
+		}
+	}
+	if len(cands) == 1 {
+		return cands[0]
+	}
+	c.Unresolved(name + "$1")
+	return nil
 }
